@@ -166,7 +166,9 @@ pub fn fresh_equivalence(script: &Script, tr: &Trace, flavor: Flavor, watchdog: 
             cmp!("len()", x.snap.len, y.snap.len);
             cmp!("metrics (hits, misses, keys added/updated/evicted, cost added/evicted, sets dropped/rejected)", x.metrics.map(|m| m[..9].to_vec()), y.metrics.map(|m| m[..9].to_vec()));
             cmp!("ratio()", x.ratio.map(|r| r.to_bits()), y.ratio.map(|r| r.to_bits()));
-            cmp!("life-expectancy histogram", x.hist.clone(), y.hist.clone());
+            // (the samples themselves are lifetimes up to the reclaim, whose instant is free: only their number)
+            let count = |h: &Option<String>| h.as_ref().and_then(|h| h.lines().find_map(|l| l.trim().strip_prefix("Count: ").map(|r| r.trim().to_string())));
+            cmp!("number of life-expectancy samples", count(&x.hist), count(&y.hist));
         }
     }
     !stop
